@@ -1,5 +1,6 @@
 """Running engine histories on both sides (Rust harness on /repo, Lean driver) and comparing traces."""
 import os
+import re
 import subprocess
 import sys
 import tempfile
@@ -52,6 +53,9 @@ def split_channels(lines):
 def canon_snap(impl_ch, model_ch):
     """The implementation lists live nodes only; restrict the model's snapshot to those."""
     alive = {}
+    impl_ch = dict(impl_ch)
+    # `refs=[…]` (strong references, also of invalid nodes) is printed by the implementation only: input of holds_C12
+    impl_ch["snap"] = [(idx, re.sub(r" refs=\[[^\]]*\]", "", p)) for idx, p in impl_ch.get("snap", [])]
     for idx, p in impl_ch.get("snap", []):
         alive.setdefault(idx, set()).add(p.split(" ", 1)[0])
     model = [(idx, p) for idx, p in model_ch.get("snap", []) if p.split(" ", 1)[0] in alive.get(idx, set())]
